@@ -447,6 +447,7 @@ func (l *lexer) scanString(start int) (int, string) {
 			case '(':
 				if !l.inString {
 					l.inString = true
+					l.token = l.source[start:l.offset]
 					return tokStringStart, ""
 				}
 				if i == l.offset+1 {
